@@ -78,6 +78,14 @@ func HandleInvite(ctx context.Context, input HandleInviteInput) (PDU, error) {
 		return nil, spec.BadJSON("The room ID in the request path must match the room ID in the invite event JSON")
 	}
 
+	// Check that the event is an invite.
+	if input.InviteEvent.Type() != spec.MRoomMember {
+		return nil, spec.BadJSON("The invite event must be an m.room.member event")
+	}
+	if membership, membershipErr := input.InviteEvent.Membership(); membershipErr != nil || membership != spec.Invite {
+		return nil, spec.BadJSON("The invite event must have a membership of 'invite'")
+	}
+
 	// Check that the event is signed by the server sending the request.
 	redacted, err := verImpl.RedactEventJSON(input.InviteEvent.JSON())
 	if err != nil {
